@@ -95,6 +95,17 @@ type LoggingError struct{ S string }
 
 func (e LoggingError) Error() string { NestedLog("Error()"); return e.S }
 
+// TextM implements encoding.TextMarshaler only.
+type TextM struct{ S string }
+
+func (t TextM) MarshalText() ([]byte, error) { return []byte(t.S), nil }
+
+// StringerTextM is a Stringer that is a TextMarshaler too (with another text).
+type StringerTextM struct{ S string }
+
+func (t StringerTextM) String() string               { return t.S }
+func (t StringerTextM) MarshalText() ([]byte, error) { return []byte("marshalled:" + t.S), nil }
+
 type ToStr struct{ S string }
 
 func (s ToStr) ToString(args ...any) string { return s.S }
@@ -119,7 +130,7 @@ type Options struct {
 }
 
 var ScalarKinds = []string{"str", "str", "str", "bytes", "bool", "i", "i8", "i16", "i32", "i64", "u", "u8", "u16", "u32", "u64",
-	"f32", "f64", "c64", "c128", "time", "dur", "err", "errv3", "stringer", "tostring", "level", "nil"}
+	"f32", "f64", "c64", "c128", "time", "dur", "err", "errv3", "stringer", "tostring", "textm", "level", "nil"}
 var SliceKinds = []string{"strs", "bools", "is", "i8s", "i16s", "i32s", "i64s", "us", "u16s", "u32s", "u64s", "f32s", "f64s", "c64s", "c128s", "times", "durs"}
 var FallbackKinds = []string{"struct", "map", "ptr", "func", "chan", "structptr", "iface-slice"}
 
@@ -276,10 +287,16 @@ func (r *R) Scalar(kind string, o Options) V {
 		v.Go = Stringer{v.Text}
 		if NestingValues && r.P(35) {
 			v.Go = LoggingStringer{v.Text}
+		} else if r.P(15) {
+			v.Go = StringerTextM{v.Text} // also a TextMarshaler (net.IP, big.Float ... are both): String() is what is logged
 		}
 	case "tostring":
 		v.Text = r.Str(o.Str)
 		v.Go = ToStr{v.Text}
+	case "textm":
+		// a value that implements encoding.TextMarshaler (and nothing else the library knows): its text is text like any other
+		v.Text = r.Str(o.Str)
+		v.Go = TextM{v.Text}
 	case "level":
 		l := Pick(r, levelPool)
 		v.Text = l.String()
@@ -510,7 +527,7 @@ func (v V) Desc() any {
 			m = append(m, map[string]any{"key": strconv.Quote(it.Key), "val": it.Val.Desc()})
 		}
 		return map[string]any{"k": "group", "items": m}
-	case "str", "bytes", "err", "errv3", "stringer", "tostring", "level":
+	case "str", "bytes", "err", "errv3", "stringer", "tostring", "textm", "level":
 		return map[string]any{"k": v.Kind, "text": strconv.Quote(v.Text)}
 	case "nil":
 		return map[string]any{"k": "nil"}
